@@ -249,6 +249,21 @@ func genPacketModel(t *rapid.T) *PacketModel {
 		}
 	case "twobyte":
 		m.Profile = rtpwire.ProfileTwoByte
+		fullEvery := 149
+		if !allowAppbitsProfiles {
+			fullEvery = 799 // wire-image cases (C02/C03/C05) are executed several times each: keep the 64 KiB blocks rarer there
+		}
+		if rapid.IntRange(0, fullEvery).Draw(t, "fulltwobyte") == 0 {
+			// the profile filled to (or next to) capacity: up to 255 ids x 255 bytes = a 65536-byte block
+			n := rapid.SampledFrom([]int{255, 255, 254, 253}).Draw(t, "fullcount")
+			vl := rapid.SampledFrom([]int{255, 255, 254, 253, 252}).Draw(t, "fullvlen")
+			seed := rapid.Uint64().Draw(t, "fullseed")
+			for id := 1; id <= n; id++ {
+				m.Exts = append(m.Exts, ExtElem{ID: uint8(id), Val: expand(seed+uint64(id), 0, vl)})
+			}
+
+			break
+		}
 		k := biased(t, "nexts", 0, 30, 1, 2, 3)
 		for _, id := range distinctIDs(t, "ids", k, 1, 255) {
 			l := biased(t, "vlen", 0, 255, 0, 1, 2, 6, 16, 17, 254, 255)
@@ -276,6 +291,9 @@ func genPacketModel(t *rapid.T) *PacketModel {
 		m.Exts = []ExtElem{{ID: 0, Val: genBytesN(t, "val", 4*w)}}
 	}
 	plen := biased(t, "plen", 0, 1500, 0, 0, 1, 2, 3, 4)
+	if rapid.IntRange(0, 199).Draw(t, "jumbopayload") == 0 {
+		plen = rapid.SampledFrom([]int{65507, 65535, 65536, 65537, 70000}).Draw(t, "jumboplen")
+	}
 	m.Payload = genBytesN(t, "payload", plen)
 	if genBool(t, "haspad") {
 		m.PaddingSize = uint8(biased(t, "pad", 1, 255, 1, 2, 3, 4, 5, 254, 255))
